@@ -115,36 +115,79 @@ func (ck *Check) findDecision(rule string) *decision {
 	for _, ci := range callsTo(a.Scan, a.GraceReaper) {
 		d.noop = ci
 	}
-	// peel overrides
+	// peel overrides: cur = φ whose edges are all `prev` or "raise prev to at least 1"
+	// (int(math.Max(float64(prev), 1)) or the constant 1 under prev < 1), possibly through a nested φ
 	cur := d.D
 	d.chain = []ssa.Value{cur}
 	for {
 		peeled := false
-		if len(cur.Edges) == 2 {
-			for i := 0; i < 2; i++ {
-				prev, ok := cur.Edges[1-i].(*ssa.Phi)
-				if !ok {
-					continue
-				}
-				if isMaxOne(cur.Edges[i], prev) {
-					b := cur.Block()
-					// the guard that decides the override: condition of entering the override block
-					ob := b.Preds[i]
-					var guard *Formula = FTrue
-					var cond ssa.Value
-					if len(ob.Preds) == 1 {
-						guard = d.ctx.edgeCond(ob.Preds[0], ob)
-						if br, ok := ob.Preds[0].Instrs[len(ob.Preds[0].Instrs)-1].(*ssa.If); ok && ob.Preds[0].Succs[0] == ob {
-							cond = br.Cond
-						}
+		var cands []*ssa.Phi
+		var collect func(ph *ssa.Phi, depth int)
+		seenC := map[*ssa.Phi]bool{}
+		collect = func(ph *ssa.Phi, depth int) {
+			for _, e := range ph.Edges {
+				if p2, ok := e.(*ssa.Phi); ok && !seenC[p2] {
+					seenC[p2] = true
+					cands = append(cands, p2)
+					if depth < 2 {
+						collect(p2, depth+1)
 					}
-					d.override = append(d.override, overrideDef{phi: cur, edge: i, guard: guard, cond: cond})
-					cur = prev
-					d.chain = append(d.chain, cur)
-					peeled = true
-					break
 				}
 			}
+		}
+		collect(cur, 0)
+		for _, prev := range cands {
+			var raises []*ssa.BasicBlock
+			var okShape func(ph *ssa.Phi, depth int) bool
+			okShape = func(ph *ssa.Phi, depth int) bool {
+				b := ph.Block()
+				for i, e := range ph.Edges {
+					switch {
+					case e == ssa.Value(prev):
+					case isMaxOne(e, prev):
+						raises = append(raises, b.Preds[i])
+					default:
+						if k, ok := e.(*ssa.Const); ok && k.Value != nil && k.Value.String() == "1" {
+							lt := cmpFormula(token.LSS, d.ctx.Term(prev), intConstTermTyped(1, prev.Type()))
+							if imp, _, _ := Entails(d.ctx.edgePC(b.Preds[i], b), lt); imp {
+								raises = append(raises, b.Preds[i])
+								continue
+							}
+							return false
+						}
+						if p2, ok := e.(*ssa.Phi); ok && depth < 2 && p2 != prev {
+							if !okShape(p2, depth+1) {
+								return false
+							}
+							continue
+						}
+						return false
+					}
+				}
+				return true
+			}
+			if !okShape(cur, 0) || len(raises) == 0 {
+				continue
+			}
+			for _, rb := range raises {
+				var cond ssa.Value
+				for dom := rb; dom != nil; dom = dom.Idom() {
+					if br, ok := dom.Instrs[len(dom.Instrs)-1].(*ssa.If); ok {
+						if _, isCall := br.Cond.(*ssa.Call); isCall && (dom.Succs[0] == rb || dom.Succs[0].Dominates(rb)) {
+							cond = br.Cond
+							break
+						}
+					}
+					if dom == prev.Block() {
+						break
+					}
+				}
+				d.override = append(d.override, overrideDef{phi: cur, guard: d.ctx.BlockPC(rb), cond: cond})
+			}
+			cur = prev
+			d.chain = append(d.chain, cur)
+			peeled = true
+			break
 		}
 		if !peeled {
 			break
@@ -440,13 +483,18 @@ func (ck *Check) lessShape(t types.Type) (int, string, *ssa.Function) {
 	if less == nil || less.Blocks == nil {
 		return 0, "no Less method", nil
 	}
+	dir, how := ck.lessShapeOf(less, paramTerm(less.Params[0]), paramTerm(less.Params[1]), paramTerm(less.Params[2]))
+	return dir, how, less
+}
+
+// lessShapeOf: recv == nil means "a slice captured by the closure" (any captured variable).
+func (ck *Check) lessShapeOf(less *ssa.Function, recv, pi, pj *Term) (int, string) {
 	ctx := ck.P.NewCtx(less)
 	f := ctx.returnFormula(0)
 	if f.kind != fAtom {
-		return 0, "Less is not a single comparison: " + f.String(), less
+		return 0, "Less is not a single comparison: " + f.String()
 	}
 	at := f.atom
-	recv, pi, pj := paramTerm(less.Params[0]), paramTerm(less.Params[1]), paramTerm(less.Params[2])
 	tsOf := func(x *Term) (string, bool) {
 		// &n[k].node.ObjectMeta.CreationTimestamp  or  n[k].node.…CreationTimestamp
 		if x.Kind == "unop" && x.Name == "&" {
@@ -456,7 +504,13 @@ func (ck *Check) lessShape(t types.Type) (int, string, *ssa.Function) {
 		if len(path) == 0 || path[len(path)-1] != "CreationTimestamp" {
 			return "", false
 		}
-		if root.Kind != "index" || root.Args[0].Key() != recv.Key() {
+		if root.Kind != "index" {
+			return "", false
+		}
+		if recv != nil && root.Args[0].Key() != recv.Key() {
+			return "", false
+		}
+		if recv == nil && !(root.Args[0].Kind == "deref" && root.Args[0].Args[0].Kind == "freevar") {
 			return "", false
 		}
 		switch root.Args[1].Key() {
@@ -474,18 +528,18 @@ func (ck *Check) lessShape(t types.Type) (int, string, *ssa.Function) {
 			switch {
 			case strings.HasSuffix(at.Name, "Time).Before"):
 				if x == "i" {
-					return 1, at.String(), less
+					return 1, at.String()
 				}
-				return -1, at.String(), less
+				return -1, at.String()
 			case strings.HasSuffix(at.Name, "Time).After"):
 				if x == "i" {
-					return -1, at.String(), less
+					return -1, at.String()
 				}
-				return 1, at.String(), less
+				return 1, at.String()
 			}
 		}
 	}
-	return 0, "unrecognised comparison: " + at.String(), less
+	return 0, "unrecognised comparison: " + at.String()
 }
 
 // sortedLoop describes "sorted := collect(nodes); sort.Sort(sorted); for range sorted {effect}".
@@ -511,6 +565,8 @@ func (ck *Check) sortBeforeLoop(rule string, fn *ssa.Function, cls string, wantD
 	over := loop.Over
 	var sortCall *ssa.Call
 	var sortedType types.Type
+	var lessClosure *ssa.Function
+	sbCtx := ck.P.NewCtx(fn)
 	for _, b := range fn.Blocks {
 		for _, in := range b.Instrs {
 			c, ok := in.(*ssa.Call)
@@ -523,9 +579,16 @@ func (ck *Check) sortBeforeLoop(rule string, fn *ssa.Function, cls string, wantD
 			}
 			switch f.Name() {
 			case "Sort", "Stable":
-				if mi, ok := c.Common().Args[0].(*ssa.MakeInterface); ok && mi.X == over {
+				if mi, ok := c.Common().Args[0].(*ssa.MakeInterface); ok && (mi.X == over || sbCtx.Term(mi.X).Key() == sbCtx.Term(over).Key()) {
 					sortCall = c
 					sortedType = mi.X.Type()
+				}
+			case "Slice", "SliceStable":
+				if mi, ok := c.Common().Args[0].(*ssa.MakeInterface); ok && (mi.X == over || sbCtx.Term(mi.X).Key() == sbCtx.Term(over).Key()) {
+					if mc, ok := c.Common().Args[1].(*ssa.MakeClosure); ok {
+						sortCall = c
+						lessClosure, _ = mc.Fn.(*ssa.Function)
+					}
 				}
 			}
 		}
@@ -535,7 +598,15 @@ func (ck *Check) sortBeforeLoop(rule string, fn *ssa.Function, cls string, wantD
 		return
 	}
 	ck.cond(sortCall.Block().Dominates(loop.Header) && !loop.Blocks[sortCall.Block()], rule, key+"/sort-dominates", ck.P.instrPos(sortCall), funcID(fn), "the sort call dominates the loop", "", "the list is sorted after (or inside) the loop")
-	dir, how, less := ck.lessShape(sortedType)
+	var dir int
+	var how string
+	var less *ssa.Function
+	if lessClosure != nil {
+		less = lessClosure
+		dir, how = ck.lessShapeOf(lessClosure, nil, paramTerm(lessClosure.Params[0]), paramTerm(lessClosure.Params[1]))
+	} else {
+		dir, how, less = ck.lessShape(sortedType)
+	}
 	pos := ""
 	if less != nil {
 		pos = ck.P.position(less.Pos())
